@@ -12,7 +12,8 @@
  *     cpu <index> <phyid>
  *     require <model> <version>
  *     rank <rank> <nranks>
- *     ev <mcv> <clock|now> <hex|-> [a+b+c]   payload added with one or several ovni_payload_add
+ *     ev <mcv> <clock|now> <hex|-> [[p:|m:|r:]a+b+c]   payload added with one or several ovni_payload_add;
+ *                                             prefix = order of the set_mcv/set_clock/payload_add calls
  *     jumbo <mcv> <clock|now> <size> <seed>
  *     flush
  *     mark_type <type> <flags> <title>
@@ -255,27 +256,58 @@ do_ev(struct section *s, char *args)
 	memcpy(rec + 16, payload, (size_t) len);
 	logrec(s, rec, 16 + (size_t) len);
 
-	struct ovni_ev ev;
-	memset(&ev, 0, sizeof(ev));
-	ovni_ev_set_clock(&ev, clock);
-	ovni_ev_set_mcv(&ev, mcv);
-	if (len > 0) {
-		if (n >= 4) {
-			int off = 0;
-			char *save = NULL;
-			for (char *t = strtok_r(split, "+", &save); t; t = strtok_r(NULL, "+", &save)) {
-				int k = atoi(t);
-				ovni_payload_add(&ev, payload + off, k);
-				off += k;
+	/* call order: the API does not prescribe one.  split token prefix
+	 * "p:" payload, mcv, clock; "m:" mcv, payload, clock; "r:" the event
+	 * structure of the previous ev line of this thread is used again, only
+	 * mcv and clock are set anew (the script guarantees an equal payload) */
+	static _Thread_local struct ovni_ev ev;
+	static _Thread_local int have_prev = 0;
+	static _Thread_local uint8_t prev_payload[64];
+	static _Thread_local int prev_len = -1;
+	char order = 'c';
+	char *sp = split;
+	if (n >= 4 && split[0] && split[1] == ':') {
+		order = split[0];
+		sp = split + 2;
+	}
+	if (order == 'r' && have_prev && prev_len == len && memcmp(prev_payload, payload, (size_t) len) == 0) {
+		ovni_ev_set_mcv(&ev, mcv);
+		ovni_ev_set_clock(&ev, clock);
+	} else {
+		memset(&ev, 0, sizeof(ev));
+		if (order == 'c') {
+			ovni_ev_set_clock(&ev, clock);
+			ovni_ev_set_mcv(&ev, mcv);
+		} else if (order == 'm') {
+			ovni_ev_set_mcv(&ev, mcv);
+		}
+		if (len > 0) {
+			if (*sp) {
+				int off = 0;
+				char *save = NULL;
+				for (char *t = strtok_r(sp, "+", &save); t; t = strtok_r(NULL, "+", &save)) {
+					int k = atoi(t);
+					ovni_payload_add(&ev, payload + off, k);
+					off += k;
+				}
+				if (off != len) {
+					fprintf(stderr, "rtdrv: split does not add up\n");
+					exit(98);
+				}
+			} else {
+				ovni_payload_add(&ev, payload, len);
 			}
-			if (off != len) {
-				fprintf(stderr, "rtdrv: split does not add up\n");
-				exit(98);
-			}
-		} else {
-			ovni_payload_add(&ev, payload, len);
+		}
+		if (order == 'p' || order == 'r') {
+			ovni_ev_set_mcv(&ev, mcv);
+			ovni_ev_set_clock(&ev, clock);
+		} else if (order == 'm') {
+			ovni_ev_set_clock(&ev, clock);
 		}
 	}
+	have_prev = 1;
+	prev_len = len;
+	memcpy(prev_payload, payload, (size_t) len);
 	ovni_ev_emit(&ev);
 	logc(s, 'e');
 }
